@@ -15,6 +15,8 @@ bound: <= 3 registered contexts, context names and the looked-up name <= 3 chara
 unwind: 6
 timeout: 200
 funcs: v_ctx_lookup
+native: conf_replay
+native_includes: conf.c
 */
 #include "vprelude.h"
 #include "env_conf.h"
